@@ -1,0 +1,137 @@
+// Copyright 2026 The osvbng Authors
+// Licensed under the GNU General Public License v3.0 or later.
+// SPDX-License-Identifier: GPL-3.0-or-later
+
+package opdb
+
+import (
+	"context"
+	"sync"
+	"testing"
+	"time"
+)
+
+// gateStore blocks every Put until the test releases it.
+type gateStore struct {
+	mu      sync.Mutex
+	data    map[string]string
+	arrived chan string
+	gate    chan struct{}
+	puts    int
+}
+
+func newGateStore() *gateStore {
+	return &gateStore{data: map[string]string{}, arrived: make(chan string, 16), gate: make(chan struct{})}
+}
+
+func (g *gateStore) Put(_ context.Context, ns, key string, value []byte) error {
+	g.arrived <- string(value)
+	<-g.gate
+	g.mu.Lock()
+	g.data[ns+"/"+key] = string(value)
+	g.puts++
+	g.mu.Unlock()
+	return nil
+}
+func (g *gateStore) Delete(_ context.Context, ns, key string) error {
+	g.mu.Lock()
+	delete(g.data, ns+"/"+key)
+	g.mu.Unlock()
+	return nil
+}
+func (g *gateStore) Load(context.Context, string, LoadFunc) error { return nil }
+func (g *gateStore) Count(context.Context, string) (int, error)   { return 0, nil }
+func (g *gateStore) Clear(context.Context, string) error          { return nil }
+func (g *gateStore) Stats() Stats                                 { return Stats{} }
+func (g *gateStore) Close() error                                 { return nil }
+
+func (g *gateStore) get(k string) (string, bool) {
+	g.mu.Lock()
+	defer g.mu.Unlock()
+	v, ok := g.data[k]
+	return v, ok
+}
+
+func waitArrived(t *testing.T, g *gateStore) string {
+	t.Helper()
+	select {
+	case v := <-g.arrived:
+		return v
+	case <-time.After(2 * time.Second):
+		t.Fatal("no Put reached the store")
+		return ""
+	}
+}
+
+func TestOrderedWriterDeleteAfterInFlightPut(t *testing.T) {
+	g := newGateStore()
+	w := NewOrderedWriter(g)
+	ctx := context.Background()
+
+	w.PutAsync(ctx, "ns", "s1", []byte("v1"), nil)
+	waitArrived(t, g) // in flight, not applied yet
+	w.PutAsync(ctx, "ns", "s1", []byte("v2"), nil)
+
+	deleted := make(chan struct{})
+	go func() {
+		_ = w.Delete(ctx, "ns", "s1")
+		close(deleted)
+	}()
+	select {
+	case <-deleted:
+		t.Fatal("Delete overtook an in-flight Put of the same key")
+	case <-time.After(50 * time.Millisecond):
+	}
+	g.gate <- struct{}{} // v1 lands
+	select {
+	case <-deleted:
+	case <-time.After(2 * time.Second):
+		t.Fatal("Delete did not run after the in-flight Put finished")
+	}
+	if v, ok := g.get("ns/s1"); ok {
+		t.Fatalf("key present after Delete: %q", v)
+	}
+	if g.puts != 1 {
+		t.Fatalf("queued Put issued before the Delete must be dropped, store saw %d puts", g.puts)
+	}
+}
+
+func TestOrderedWriterPutsLandInIssueOrder(t *testing.T) {
+	g := newGateStore()
+	w := NewOrderedWriter(g)
+	ctx := context.Background()
+
+	for _, v := range []string{"v1", "v2", "v3"} {
+		w.PutAsync(ctx, "ns", "s1", []byte(v), nil)
+	}
+	w.PutAsync(ctx, "ns", "other", []byte("o1"), nil) // another key does not wait
+
+	seen := map[string]bool{waitArrived(t, g): true, waitArrived(t, g): true}
+	if !seen["v1"] || !seen["o1"] {
+		t.Fatalf("expected v1 and o1 in flight, got %v", seen)
+	}
+	g.gate <- struct{}{}
+	g.gate <- struct{}{}
+	for _, want := range []string{"v2", "v3"} {
+		if got := waitArrived(t, g); got != want {
+			t.Fatalf("Put order: got %q want %q", got, want)
+		}
+		g.gate <- struct{}{}
+	}
+	deadline := time.Now().Add(2 * time.Second)
+	for {
+		if v, _ := g.get("ns/s1"); v == "v3" {
+			break
+		}
+		if time.Now().After(deadline) {
+			t.Fatal("final value is not the last issued Put")
+		}
+		time.Sleep(time.Millisecond)
+	}
+	w.mu.Lock()
+	n := len(w.keys)
+	w.mu.Unlock()
+	if n != 0 {
+		t.Fatalf("idle writer keeps %d key entries", n)
+	}
+}
